@@ -101,6 +101,16 @@ pub fn build(
             "complete": planned_runs >= total,
         });
     }
+    if prop == "C02" {
+        let bases = crate::scenario::enum_bases(tier);
+        coverage["single_fault_sweep"] = json!({
+            "definition": "per base file: every truncation length, every position x {flip bit 0, flip bit 7, 0x00, 0xFF, 0x1A}, every aligned 16-byte run zeroed",
+            "base_files": bases,
+            "quota_per_base": crate::gen_load::ENUM_QUOTA,
+            "base_files_swept_completely": measures.get("enum_base").copied().unwrap_or(0),
+            "complete": planned_runs >= crate::scenario::enum_runs(tier),
+        });
+    }
     let zero_probes: Vec<&String> = agg.counters.iter().filter(|(k, v)| k.starts_with("probe_") && **v == 0).map(|(k, _)| k).collect();
     if !zero_probes.is_empty() {
         coverage["warnings"] = json!(zero_probes);
